@@ -90,7 +90,9 @@ def make_bank(rng, cont, enc, parens=False):
             words += ['Жук', '日本']
     pools = gen.Pools(words=words,
                       cats=rng.choice([['S', 'NP', 'VP'], ['S', 'NP', 'VP', 'PP', 'CNP']]),
-                      pos=rng.choice([['NN', 'VV', 'ART'], ['NN', 'VVFIN', 'ART', '$.', 'KON']]))
+                      pos=rng.choice([['NN', 'VV', 'ART'], ['NN', 'VVFIN', 'ART', '$.', 'KON'],
+                                      ['NN', 'VVFIN', '$,', '$.', 'P+D',
+                                       'X:Y']]))
     bank = []
     for j in range(rng.randint(1, 6)):
         if bank and rng.random() < 0.3:
